@@ -101,10 +101,10 @@ theorem Acc.data_append (h : dc.Hom) (a : Acc D) (x y : Bytes) :
 /-! ## helper lemmas: the three read loops against the read-free slices -/
 
 /-- observation of a loop result: accumulated state and unread rest -/
-def Res.obs : Res D → BodyS D
-  | .ok a c _ => .ok a c.rest
-  | .exc e _ _ => .exc e
-  | .stall _ _ => .stall
+def Res.obs : Res D → BodyS D × Bool
+  | .ok a c ovr => (.ok a c.rest, ovr)
+  | .exc e _ _ => (.exc e, false)
+  | .stall _ _ => (.stall, false)
 
 theorem take_split (r : Bytes) (k n : Nat) (h : k ≤ n) :
     r.take n = r.take k ++ (r.drop k).take (n - k) := by
@@ -113,7 +113,7 @@ theorem take_split (r : Bytes) (k n : Nat) (h : k ≤ n) :
   rw [List.take_add]
 
 theorem closeLoop_spec (h : dc.Hom) : ∀ (fuel : Nat) (c : Conn) (a : Acc D), c.rest.length < fuel →
-    (closeLoop dc fuel c a).obs = specClose dc c.rest c.eof a := by
+    (closeLoop dc fuel c a).obs = (specClose dc c.rest c.eof a, false) := by
   intro fuel
   induction fuel with
   | zero => intro c a hf; omega
@@ -260,7 +260,7 @@ schedule — except that, when the peer sent more than `n` bytes, a read may hav
 part of the surplus: then the surplus is thrown away and the connection closed
 (`overrun = true`), the delivered bytes being the same. -/
 theorem lengthLoop_spec (h : dc.Hom) : ∀ (fuel left : Nat) (c : Conn) (a : Acc D), c.rest.length < fuel →
-    (lengthLoop dc fuel left c a).obs = specLength dc left c.rest c.eof a ∨
+    (lengthLoop dc fuel left c a).obs = (specLength dc left c.rest c.eof a, false) ∨
     (∃ a' c', lengthLoop dc fuel left c a = .ok a' c' true ∧ left < c.rest.length ∧
       c'.rest.length < c.rest.length - left ∧
       specLength dc left c.rest c.eof a = .ok a' (c.rest.drop left)) := by
@@ -314,5 +314,371 @@ theorem lengthLoop_spec (h : dc.Hom) : ∀ (fuel left : Nat) (c : Conn) (a : Acc
               refine ⟨a'', c'', hloop, by omega, by omega, ?_⟩
               rw [hspec, List.drop_drop]
               congr 2; omega
+
+/-! ## helper lemmas: the line-oriented parts never look at the schedule -/
+
+theorem readlineFlat_line {r : Bytes} {eof : Bool} {l r' : Bytes} (h : readlineFlat r eof = .line l r') :
+    r = l ++ r' := by
+  unfold readlineFlat at h
+  split at h
+  · split at h
+    · cases h
+    · cases h; exact (List.take_append_drop _ _).symm
+  · split at h
+    · cases h
+    · split at h
+      · cases h; simp
+      · cases h
+
+def Head.obs : Head → HeadS
+  | .ok block nt c => .ok block nt c.rest
+  | .exc e _ _ => .exc e
+  | .stall _ _ => .stall
+
+theorem readHead_spec : ∀ (fuel : Nat) (c : Conn) (ls : List Bytes) (n : Nat),
+    (readHead fuel c ls n).obs = specHead fuel c.rest c.eof ls n := by
+  intro fuel
+  induction fuel with
+  | zero => intro c ls n; simp [readHead, specHead, Head.obs]
+  | succ fuel ih =>
+    intro c ls n
+    unfold readHead specHead Conn.readline
+    cases hrl : readlineFlat c.rest c.eof with
+    | tooLong => simp [Head.obs]
+    | stall => simp [Head.obs]
+    | line l r =>
+      simp only
+      split
+      · simp [Head.obs]
+      · split
+        · split <;> simp [Head.obs]
+        · split
+          · simp [Head.obs]
+          · rw [ih]
+
+theorem readHead_eof : ∀ (fuel : Nat) (c : Conn) (ls : List Bytes) (n : Nat) (b nt : Bytes) (c' : Conn),
+    readHead fuel c ls n = .ok b nt c' → c'.eof = c.eof := by
+  intro fuel
+  induction fuel with
+  | zero => intro c ls n b nt c' h; simp [readHead] at h
+  | succ fuel ih =>
+    intro c ls n b nt c' h
+    unfold readHead Conn.readline at h
+    cases hrl : readlineFlat c.rest c.eof with
+    | tooLong => simp [hrl] at h
+    | stall => simp [hrl] at h
+    | line l r =>
+      simp only [hrl] at h
+      split at h
+      · cases h
+      · split at h
+        · split at h
+          · cases h
+          · cases h; rfl
+        · split at h
+          · cases h
+          · exact ih { c with rest := r, log := c.log ++ [Call.readline l] } _ _ _ _ _ h
+
+def Trailer.obs : Trailer → TrailerS
+  | .ok t c => .ok t c.rest
+  | .exc e _ => .exc e
+  | .stall _ => .stall
+
+theorem trailerLoop_spec : ∀ (fuel : Nat) (c : Conn) (acc : Bytes),
+    (trailerLoop fuel c acc).obs = specTrailer fuel c.rest c.eof acc := by
+  intro fuel
+  induction fuel with
+  | zero => intro c acc; simp [trailerLoop, specTrailer, Trailer.obs]
+  | succ fuel ih =>
+    intro c acc
+    unfold trailerLoop specTrailer Conn.readline
+    cases hrl : readlineFlat c.rest c.eof with
+    | tooLong => simp [Trailer.obs]
+    | stall => simp [Trailer.obs]
+    | line l r =>
+      simp only
+      split
+      · simp [Trailer.obs]
+      · split
+        · simp [Trailer.obs]
+        · rw [ih]
+
+theorem cdObs_done {r : Res D} {a : Acc D} {rest : Bytes} {eof : Bool} (h : r.cdObs = .done a rest eof) :
+    ∃ c, r = .ok a c false ∧ c.rest = rest ∧ c.eof = eof := by
+  cases r with
+  | ok a' c b => cases b <;> simp [Res.cdObs] at h; exact ⟨c, by simp [h.1], h.2.1, h.2.2⟩
+  | exc e a' c => simp [Res.cdObs] at h
+  | stall a' c => simp [Res.cdObs] at h
+
+theorem cdObs_eofInside {r : Res D} {a : Acc D} {rest : Bytes} {eof : Bool} (h : r.cdObs = .eofInside a rest eof) :
+    ∃ c, r = .ok a c true ∧ c.rest = rest ∧ c.eof = eof := by
+  cases r with
+  | ok a' c b => cases b <;> simp [Res.cdObs] at h; exact ⟨c, by simp [h.1], h.2.1, h.2.2⟩
+  | exc e a' c => simp [Res.cdObs] at h
+  | stall a' c => simp [Res.cdObs] at h
+
+theorem cdObs_exc {r : Res D} {e : PyExc} (h : r.cdObs = .exc e) : ∃ a c, r = .exc e a c := by
+  cases r with
+  | ok a' c b => cases b <;> simp [Res.cdObs] at h
+  | exc e' a' c => simp [Res.cdObs] at h; exact ⟨a', c, by rw [h]⟩
+  | stall a' c => simp [Res.cdObs] at h
+
+theorem cdObs_stall {r : Res D} (h : r.cdObs = .stall) : ∃ a c, r = .stall a c := by
+  cases r with
+  | ok a' c b => cases b <;> simp [Res.cdObs] at h
+  | exc e' a' c => simp [Res.cdObs] at h
+  | stall a' c => exact ⟨a', c, rfl⟩
+
+def Chunks.obs : Chunks D → ChunksS D
+  | .ok a t c => .ok a t c.rest
+  | .exc e _ _ => .exc e
+  | .stall _ _ => .stall
+
+theorem specChunked_nil (fuel0 fuel : Nat) (a : Acc D) :
+    specChunked dc fuel0 (fuel + 1) [] true a = .exc .NetworkError := by
+  simp [specChunked, readlineFlat, findLF, lineLimit]
+
+theorem getLast_ne_nil {l : Bytes} (h : ¬ (l.getLast? != some 10) = true) : 1 ≤ l.length := by
+  cases l with
+  | nil => simp at h
+  | cons x t => simp
+
+theorem chunkedLoop_spec (h : dc.Hom) (fuel0 : Nat) : ∀ (fuel : Nat) (c : Conn) (a : Acc D),
+    c.rest.length < fuel → c.rest.length < fuel0 →
+    (chunkedLoop dc fuel0 fuel c a).obs = specChunked dc fuel0 fuel c.rest c.eof a := by
+  intro fuel
+  induction fuel with
+  | zero => intro c a hf; omega
+  | succ fuel ih =>
+    intro c a hf hf0
+    unfold chunkedLoop specChunked Conn.readline
+    cases hrl : readlineFlat c.rest c.eof with
+    | tooLong => simp [Chunks.obs]
+    | stall => simp [Chunks.obs]
+    | line l r1 =>
+      have hsplit := readlineFlat_line hrl
+      have hlen : c.rest.length = l.length + r1.length := by rw [hsplit]; simp
+      simp only
+      split
+      · simp [Chunks.obs]
+      · rename_i hlast
+        have hl1 := getLast_ne_nil hlast
+        cases hcs : chunkSize? l with
+        | none => simp [Chunks.obs]
+        | some size =>
+          simp only
+          by_cases hz : size = 0
+          · simp only [hz, if_true]
+            cases hfl : (a.note l).flush dc with
+            | error e => simp [Chunks.obs]
+            | ok a2 =>
+              simp only
+              have ht := trailerLoop_spec fuel0
+                { c with rest := r1, log := c.log ++ [Call.readline l] } []
+              simp only at ht
+              cases htl : trailerLoop fuel0 { c with rest := r1, log := c.log ++ [Call.readline l] } [] with
+              | exc e c2 => rw [htl] at ht; simp [Trailer.obs] at ht; simp [← ht, Chunks.obs]
+              | stall c2 => rw [htl] at ht; simp [Trailer.obs] at ht; simp [← ht, Chunks.obs]
+              | ok t c2 => rw [htl] at ht; simp [Trailer.obs] at ht; simp [← ht, Chunks.obs]
+          · simp only [hz, if_false]
+            have hcd := chunkDataLoop_spec h fuel0 size
+              { c with rest := r1, log := c.log ++ [Call.readline l] } (a.note l) (by simp; omega)
+            simp only [specChunkData] at hcd
+            by_cases hle : size ≤ r1.length
+            · simp only [hle, if_true] at hcd ⊢
+              cases hd : (a.note l).data dc (r1.take size) with
+              | error e =>
+                rw [hd] at hcd
+                obtain ⟨a2, c2, hres⟩ := cdObs_exc hcd
+                simp [hres, Chunks.obs]
+              | ok a2 =>
+                rw [hd] at hcd
+                obtain ⟨c2, hres, hr2, he2⟩ := cdObs_done hcd
+                simp only [hres, Conn.readline, hr2, he2]
+                cases hrl2 : readlineFlat (r1.drop size) c.eof with
+                | tooLong => simp [Chunks.obs]
+                | stall => simp [Chunks.obs]
+                | line nl r3 =>
+                  simp only
+                  have hs2 := readlineFlat_line hrl2
+                  have hlen2 : (r1.drop size).length = nl.length + r3.length := by rw [hs2]; simp
+                  have hd2 : (r1.drop size).length ≤ r1.length := by simp
+                  split
+                  · simp [Chunks.obs]
+                  · have hih := ih { c2 with rest := r3, log := c2.log ++ [Call.readline nl] } (a2.note nl)
+                      (by simp; omega) (by simp; omega)
+                    simp only [he2] at hih
+                    exact hih
+            · simp only [hle, if_false] at hcd ⊢
+              cases hd : (a.note l).data dc r1 with
+              | error e =>
+                rw [hd] at hcd
+                obtain ⟨a2, c2, hres⟩ := cdObs_exc hcd
+                simp [hres, Chunks.obs]
+              | ok a2 =>
+                rw [hd] at hcd
+                cases he : c.eof with
+                | false =>
+                  simp only [he, Bool.false_eq_true, if_false] at hcd ⊢
+                  obtain ⟨a3, c3, hres⟩ := cdObs_stall hcd
+                  simp [hres, Chunks.obs]
+                | true =>
+                  simp only [he, if_true] at hcd ⊢
+                  obtain ⟨c2, hres, hr2, he2⟩ := cdObs_eofInside hcd
+                  simp only [hres]
+                  have hfuel : 1 ≤ fuel := by omega
+                  obtain ⟨f', hf'⟩ : ∃ f', fuel = f' + 1 := ⟨fuel - 1, by omega⟩
+                  have := ih c2 a2 (by rw [hr2]; simp; omega) (by rw [hr2]; simp; omega)
+                  rw [this, hr2, he2, hf', specChunked_nil]
+
+/-! ## helper lemmas: gluing the parts -/
+
+/-- The reader's result `r` agrees with what the specification `s` says about the same
+bytes: same outcome (status, fields, body — or the same error class, or both wait for
+more bytes); on success the listeners saw exactly the message's bytes; and either the
+reader consumed exactly the message and closes exactly when the message says so, or — the
+peer having sent more than Content-Length — it swallowed part of the surplus and closes
+the connection. -/
+structure Agrees (r : Result) (s : Spec) : Prop where
+  outcome : r.outcome = s.outcome
+  notified : (∃ st f b, s.outcome = .ok st f b) → r.notified = s.notified
+  framing : (∃ st f b, s.outcome = .ok st f b) →
+    (r.rest = s.rest ∧ r.consumed = s.length ∧ r.closed = s.close) ∨
+    (r.closed = true ∧ s.length < r.consumed ∧ s.rest ≠ [])
+
+theorem agrees_exc (w : Wire) (e : PyExc) (nt : Bytes) (c : Conn) :
+    Agrees (mkResult w (.exc e) true nt c) (specOf w (.exc e) [] [] true) :=
+  ⟨rfl, fun ⟨_, _, _, h⟩ => by simp [specOf] at h, fun ⟨_, _, _, h⟩ => by simp [specOf] at h⟩
+
+theorem agrees_stall (w : Wire) (nt : Bytes) (c : Conn) :
+    Agrees (mkResult w .stalled false nt c) (specOf w .stalled [] [] false) :=
+  ⟨rfl, fun ⟨_, _, _, h⟩ => by simp [specOf] at h, fun ⟨_, _, _, h⟩ => by simp [specOf] at h⟩
+
+theorem agrees_ok (w : Wire) (o : Outcome) (nt : Bytes) (c : Conn) (cl : Bool) :
+    Agrees (mkResult w o cl nt c) (specOf w o nt c.rest cl) :=
+  ⟨rfl, fun _ => rfl, fun _ => Or.inl ⟨rfl, rfl, rfl⟩⟩
+
+theorem finishBody_agrees_exact (w : Wire) (st : Status) (f : Fields) (sc : Bool) (r : Res D) (b : BodyS D)
+    (h : r.obs = (b, false)) : Agrees (finishBody dc w st f sc r) (finishSpec dc w st f sc b) := by
+  cases r with
+  | exc e a c => simp [Res.obs] at h; subst h; exact agrees_exc w e _ c
+  | stall a c => simp [Res.obs] at h; subst h; exact agrees_stall w _ c
+  | ok a c ovr =>
+    simp [Res.obs] at h
+    obtain ⟨hb, hovr⟩ := h
+    subst hb hovr
+    simp only [finishBody, finishSpec]
+    cases a.flush dc with
+    | error e => exact agrees_exc w e _ c
+    | ok a' => simpa using agrees_ok w (.ok st f a'.body) a'.notified c sc
+
+theorem finishBody_agrees_overrun (w : Wire) (st : Status) (f : Fields) (sc : Bool) (a : Acc D) (c : Conn)
+    (rest : Bytes) (h1 : c.rest.length < rest.length) (h2 : rest.length ≤ w.bytes.length) :
+    Agrees (finishBody dc w st f sc (.ok a c true)) (finishSpec dc w st f sc (.ok a rest)) := by
+  simp only [finishBody, finishSpec]
+  cases a.flush dc with
+  | error e => exact agrees_exc w e _ c
+  | ok a' =>
+    refine ⟨rfl, fun _ => rfl, fun _ => Or.inr ⟨by simp [mkResult], ?_, ?_⟩⟩
+    · simp only [mkResult, specOf]; omega
+    · simp only [specOf]; intro hnil; rw [hnil] at h1; simp at h1
+
+theorem finishChunked_agrees (w : Wire) (st : Status) (f : Fields) (sc : Bool) (r : Chunks D) :
+    Agrees (finishChunked w st f sc r) (finishChunkedSpec w st f sc r.obs) := by
+  cases r with
+  | exc e a c => exact agrees_exc w e _ c
+  | stall a c => exact agrees_stall w _ c
+  | ok a t c =>
+    simp only [finishChunked, finishChunkedSpec, Chunks.obs]
+    cases parseFields true f t with
+    | none => exact agrees_exc w .ValueError _ c
+    | some f' => exact agrees_ok w (.ok st f' a.body) a.notified c sc
+
+theorem readBody_agrees (h : dc.Hom) (cfg : StreamCfg) (req : ReqInfo) (fuel : Nat) (st : Status) (f : Fields)
+    (c : Conn) (nt : Bytes) (w : Wire) (hf : c.rest.length < fuel) (he : c.eof = w.eof)
+    (hw : c.rest.length ≤ w.bytes.length) :
+    Agrees (readBody dc cfg req fuel st f c nt w) (specBody dc cfg req fuel st f c.rest nt w) := by
+  unfold readBody specBody
+  simp only
+  cases bodyStrategy cfg f with
+  | chunked =>
+    simp only
+    rw [← he, ← chunkedLoop_spec h fuel fuel c _ hf hf]
+    exact finishChunked_agrees w st f _ _
+  | close =>
+    simp only
+    rw [← he]
+    exact finishBody_agrees_exact w st f _ _ _ (closeLoop_spec h fuel c _ hf)
+  | length =>
+    simp only
+    cases contentLength? ((f.get? sContentLength).getD []) with
+    | none =>
+      simp only
+      rw [← he]
+      exact finishBody_agrees_exact w st f _ _ _ (closeLoop_spec h fuel c _ hf)
+    | some n =>
+      simp only
+      rw [← he]
+      rcases lengthLoop_spec h fuel n c { notified := nt, body := [], dec := (decKind f).map dc.init } hf with
+        hex | ⟨a', c', hloop, hlt, hlen, hspec⟩
+      · exact finishBody_agrees_exact w st f _ _ _ hex
+      · rw [hloop, hspec]
+        exact finishBody_agrees_overrun w st f _ a' c' _ (by rw [List.length_drop]; omega)
+          (by rw [List.length_drop]; omega)
+
+theorem specHead_rest_le : ∀ (fuel : Nat) (r : Bytes) (eof : Bool) (ls : List Bytes) (n : Nat) (b nt r' : Bytes),
+    specHead fuel r eof ls n = .ok b nt r' → r'.length ≤ r.length := by
+  intro fuel
+  induction fuel with
+  | zero => intro r eof ls n b nt r' h; simp [specHead] at h
+  | succ fuel ih =>
+    intro r eof ls n b nt r' h
+    unfold specHead at h
+    cases hrl : readlineFlat r eof with
+    | tooLong => simp [hrl] at h
+    | stall => simp [hrl] at h
+    | line l r1 =>
+      have hs := readlineFlat_line hrl
+      have hlen : r.length = l.length + r1.length := by rw [hs]; simp
+      simp only [hrl] at h
+      split at h
+      · cases h
+      · split at h
+        · split at h
+          · cases h
+          · cases h; omega
+        · split at h
+          · cases h
+          · have := ih _ _ _ _ _ _ _ h; omega
+
+/-- **the reader computes the specification, for every schedule** (the workhorse behind the
+property theorems) -/
+theorem decode_agrees (h : dc.Hom) (cfg : StreamCfg) (req : ReqInfo) (σ : List Nat) (w : Wire) :
+    Agrees (decode dc cfg req σ w) (rfc dc cfg req w) := by
+  unfold decode rfc
+  simp only
+  have hh := readHead_spec (w.bytes.length + 2) { rest := w.bytes, eof := w.eof, sched := σ } [] 0
+  simp only at hh
+  cases hrd : readHead (w.bytes.length + 2) { rest := w.bytes, eof := w.eof, sched := σ } [] 0 with
+  | exc e nt c =>
+    rw [hrd] at hh; simp only [Head.obs] at hh; rw [← hh]
+    exact agrees_exc w e nt c
+  | stall nt c =>
+    rw [hrd] at hh; simp only [Head.obs] at hh; rw [← hh]
+    exact agrees_stall w nt c
+  | ok block nt c =>
+    rw [hrd] at hh; simp only [Head.obs] at hh; rw [← hh]
+    simp only
+    have hle := specHead_rest_le _ _ _ _ _ _ _ _ hh.symm
+    have heof := readHead_eof _ _ _ _ _ _ _ hrd
+    simp only at heof
+    cases parseResponse block with
+    | error e => exact agrees_exc w e nt c
+    | ok p =>
+      obtain ⟨st, f⟩ := p
+      simp only
+      split
+      · exact agrees_ok w (.ok st f []) nt c false
+      · exact readBody_agrees h cfg req _ st f c nt w (by omega) heof hle
 
 end Wpull.HttpWire
